@@ -191,8 +191,22 @@ def progs_of(task):
                 pass
 
 
-def judge(text, std):
-    o = try_parse(text, std)
+VARIANTS = [("plain", None, True), ("cpp", "#define X 1", True), ("include", " include 'no_such_file.inc'", True), ("comment", " ! kept comment", False)]
+
+
+def with_variant(text, extra):
+    """a kept line (CPP line, unresolved INCLUDE, comment) before every line"""
+    if extra is None:
+        return text
+    out = []
+    for l in text.rstrip("\n").split("\n"):
+        out.append(extra)
+        out.append(l)
+    return "\n".join(out) + "\n"
+
+
+def judge(text, std, ic=True):
+    o = try_parse(text, std, ignore_comments=ic)
     if o.ok:
         return "accepted", "parse returned a tree:\n%s" % str(o.tree)
     return None, o.klass()
@@ -221,11 +235,24 @@ def run(task):
             res.counters["edit:" + kind.split(":")[0]] += 1
             if v:
                 res.violation("C08|accepted|%s" % kind, "%s: %s\n%s\n--- edited source:\n%s" % (pid, desc, info, text), {"text": text, "std": std, "edit": kind}, cost=len(text))
+            # the same edit with a kept line (CPP / unresolved INCLUDE /
+            # retained comment) in front of every statement: name and label
+            # checks must not be thrown off by nodes collected before an opener
+            if kind.split(":")[0] in ("rename-end", "add-end-name", "rename-mid", "delete-closer", "delete-opener", "duplicate-end") and (task[0] == "E" or len(prog) <= 12):
+                for vname, extra, ic in VARIANTS[1:]:
+                    vt = with_variant(text, extra)
+                    res.evals += 1
+                    res.transitions += 1
+                    res.states.add(h64(vt, std, vname))
+                    v2, info2 = judge(vt, std, ic)
+                    res.outcomes[(v2 or ("rejected:" + info2)) + "/" + vname] += 1
+                    if v2:
+                        res.violation("C08|accepted|%s|with-%s-lines" % (kind, vname), "%s: %s (%s line before every statement)\n%s\n--- edited source:\n%s" % (pid, desc, vname, info2, vt), {"text": vt, "std": std, "edit": kind + "|with-%s-lines" % vname, "ic": ic}, cost=len(vt))
             if res.evals % 800 == 1:
                 res.sample({"program": pid, "edit": desc, "source": text})
     return res
 
 
 def replay(case):
-    v, info = judge(case["text"], case["std"])
+    v, info = judge(case["text"], case["std"], case.get("ic", True))
     return [{"sig": "C08|accepted|%s" % case["edit"], "detail": info}] if v else []
